@@ -12,6 +12,9 @@ CONSTANTS
  MaxBad = 1
  MaxRestore = 2
  MaxBadUnit = 0
+ DocNKeys = 1
+ DocShapes = {"p"}
+ DocMaxBatch = 1
  SimMode = TRUE
 INVARIANT Convergence
 INVARIANT RefOutcome
@@ -23,5 +26,6 @@ INVARIANT CausalTs
 INVARIANT IdsUnique
 INVARIANT UnitsWellFormed
 INVARIANT PlainRefinement
+INVARIANT DocObjRule
 INVARIANT StepDump
 CHECK_DEADLOCK FALSE
